@@ -29,6 +29,8 @@ class LoopConnection(secsgem.common.Connection):
         self.send_ok = True
         self.after_close_sends = 0
         self.link = None  # optional Link that forwards written bytes to a peer connection
+        self.send_fault_menu = False  # offer "this write fails" as an environment deviation
+        self.failed_sends = []
         self.pace = 0.0  # > 0: virtual seconds between two arriving chunks (every other thread runs until it blocks in between)
 
     # ---- Connection API used by the protocol
@@ -61,6 +63,10 @@ class LoopConnection(secsgem.common.Connection):
             self.after_close_sends += 1
             return False
         if not self.send_ok:
+            return False
+        if self.send_fault_menu and s.choose(2, "env") == 1:
+            # environment deviation: this one write fails (transient), nothing of it reaches the wire
+            self.failed_sends.append(bytes(data))
             return False
         data = bytes(data)
         self.sent.append((s.clock, data, self.generation))
